@@ -270,12 +270,12 @@ def write_evidence(prop, tier, seed, level, coverage, assumptions, wall, violati
         json.dump(ev, f, indent=1, sort_keys=True)
 
 
-def save_replay(prop, program, eql_path, script, observed, info):
+def save_replay(prop, program, eql_path, script, observed, info, kind=None):
     d = os.path.join(VERIF, "evidence", "replays")
     os.makedirs(d, exist_ok=True)
     path = os.path.join(d, "%s_%s.json" % (prop, program))
     json.dump({"property": prop, "program": program, "eql": open(eql_path).read(), "script": script,
-               "observed": observed, "info": info,
+               "observed": observed, "info": info, "kind": kind,
                "how": "compile the program with /repo's eqlog, run the script against the generated API "
                       "(gensym/replay.py <this file>) and evaluate the stated assertion on the dumped state"},
               open(path, "w"), indent=1)
@@ -285,7 +285,7 @@ def save_replay(prop, program, eql_path, script, observed, info):
 def run_witness_task(task):
     """task: dict(program, rs, eql, kind, plans, timeout, scratch).  Returns dict(found=(script, obs, info) | None, tried=[..])"""
     limit_memory(24)
-    out = {"program": task["program"], "found": None, "tried": [], "unconfirmed": None}
+    out = {"program": task["program"], "found": None, "tried": [], "unconfirmed": None, "kind": task["kind"]}
     try:
         su = L.Setup(task["rs"], task["eql"], 2, repo=REPO)
         ctx, I, sch = su.fresh()
